@@ -775,7 +775,7 @@ def acc_line(stmt):
             out.append('ids=' + E(L, lambda: list(g.get_identifiers())))
         elif isinstance(g, sql.Function):
             out.append('par=' + E(L, lambda: list(g.get_parameters())))
-            out.append('win=' + E(P, g.get_window))
+            out.append('win=' + E(lambda t: 'N' if t is None else P(t), g.get_window))
         elif isinstance(g, sql.Case):
             out.append('cs0=' + E(cases, lambda: g.get_cases(skip_ws=False)))
             out.append('cs1=' + E(cases, lambda: g.get_cases(skip_ws=True)))
